@@ -24,5 +24,5 @@ def run(ctx):
         Part('refine', 'corr_meta', 'run_refine', [s, 250 if q else 4000]),
     ]
     if not q:
-        parts.append(Part('size_tight_grid', 'corr_meta', 'run_size_tight', [s, 0, 40, True]))
+        parts.append(Part('size_tight_grid', 'corr_meta', 'run_size_tight', [s, 0, 30, True]))
     return run_parts(ctx, parts, RULE)
